@@ -46,8 +46,18 @@ def runModel (c : Case) : Except String V × List Ev :=
    | .ok v => .ok v
    | .error e => .error e.cls, st.log)
 
+/-- canonical form: the elements of sets sorted by their JSON text (sets are unordered) -/
+partial def canonV : V → V
+  | .list xs => .list (xs.map canonV)
+  | .tuple xs => .tuple (xs.map canonV)
+  | .dict o es => .dict o (es.map (fun e => (canonV e.1, canonV e.2)))
+  | .set f xs =>
+    let ys := xs.map canonV
+    .set f (ys.toArray.qsort (fun a b => (vToJson a).compress < (vToJson b).compress)).toList
+  | v => v
+
 def resEq : Except String V → Except String V → Bool
-  | .ok a, .ok b => veq a b && typeName a == typeName b && (vToJson a).compress == (vToJson b).compress
+  | .ok a, .ok b => (vToJson (canonV a)).compress == (vToJson (canonV b)).compress
   | .error a, .error b => a == b
   | _, _ => false
 
